@@ -66,6 +66,7 @@ type config struct {
 	Strat                              int
 	Issuer                             string // static issuer, or the path of a dynamic one
 	Insecure                           bool
+	FwdHeader                          string // stForwarded: "" = Forwarded, else the one header given to WithIssuerFromCustomHeaders
 }
 
 type request struct {
@@ -142,7 +143,11 @@ func build(c config) (*fixture, error) {
 	case stHost:
 		issuer = op.IssuerFromHost(c.Issuer)
 	default:
-		issuer = op.IssuerFromForwardedOrHost(c.Issuer)
+		if c.FwdHeader != "" {
+			issuer = op.IssuerFromForwardedOrHost(c.Issuer, op.WithIssuerFromCustomHeaders(c.FwdHeader))
+		} else {
+			issuer = op.IssuerFromForwardedOrHost(c.Issuer)
+		}
 	}
 	p, err := op.NewProvider(conf, st.AsStorage(c.CC, c.TE, c.Dev), issuer, opts...)
 	if err != nil {
@@ -175,8 +180,12 @@ func (f *fixture) do(r opfix.Router, q request, method, path string, form url.Va
 		req = httptest.NewRequest(method, target, strings.NewReader(form.Encode()))
 		req.Header.Set("Content-Type", "application/x-www-form-urlencoded")
 	}
+	fh := "Forwarded"
+	if f.cfg.FwdHeader != "" {
+		fh = f.cfg.FwdHeader
+	}
 	for _, v := range q.Fwd {
-		req.Header.Add("Forwarded", v)
+		req.Header.Add(fh, v)
 	}
 	if len(basic) == 2 {
 		req.SetBasicAuth(url.QueryEscape(basic[0]), url.QueryEscape(basic[1]))
